@@ -153,6 +153,18 @@ class DataModels:
             raise Unsupported('record subscript with non-constant key')
         if isinstance(b, SObj):
             return I.calls.call_method(I, b, '__getitem__', [k], {}, node, None)
+        if isinstance(b, StructRef) and b.name == 'Dwarf_dw_form':
+            from .vals import FormParser
+            known = z3.Function('form.known', StrS, BoolS)
+            if isinstance(k, Code):
+                if not I.pure and not I.ctx.branch(zand(k.isname, known(k.name))):
+                    raise PyExc('KeyError', ln, 'form not in the form table')
+                return FormParser(k.name, b.owner)
+            if is_strlike(k):
+                if not I.pure and not I.ctx.branch(known(to_str(k))):
+                    raise PyExc('KeyError', ln, 'form not in the form table')
+                return FormParser(to_str(k), b.owner)
+            raise PyExc('KeyError', ln, 'form table looked up with a number')
         if isinstance(b, SBytes):
             return self.bytes_index(I, b, k, ln)
         if isinstance(b, SList):
@@ -229,6 +241,17 @@ class DataModels:
                 for key, val in d.items():
                     if isinstance(key, int):
                         term = z3.If(k == key, z3.StringVal(val), term)
+                return term
+            if strict and not I.pure and len(d) > 24 and is_sym(k) and z3.is_int(k) and \
+                    all(isinstance(v, str) for key, v in d.items() if isinstance(key, int)):
+                # d[k] in a large number -> name table: KeyError unless k is one of the (integer) keys; the name is an
+                # if-then-else term
+                items = [(key, v) for key, v in d.items() if isinstance(key, int) and not isinstance(key, bool)]
+                if not I.ctx.branch(z3.Or(*[k == key for key, _v in items])):
+                    raise PyExc('KeyError', ln)
+                term = z3.StringVal(items[-1][1])
+                for key, val in items[:-1]:
+                    term = z3.If(k == key, z3.StringVal(val), term)
                 return term
             for key, val in d.items():
                 if I.ctx.branch(I.equal(k, key)) if not I.pure else False:
